@@ -252,3 +252,51 @@ Theorem repaired_parameters_witness :
              (OParamsP PAccepted (Some 1000) (Some 50) (Some 50) (Some 50) (Some 4) (Some 4))) = FQErr PROTOCOL_VIOLATION.
 Proof. exact repaired_witness_l. Qed.
 Print Assumptions repaired_parameters_witness.
+
+(* ---- STREAMS_BLOCKED (aioquic writes no DATA_BLOCKED and no STREAM_DATA_BLOCKED frame) ---- *)
+
+(* the STREAMS_BLOCKED step of _write_application: a frame is written only for a kind whose blocked list is not
+   empty, it carries the CURRENT max_streams of that kind, and -- in a reachable state in which _unblock_streams has
+   run since max_streams last changed ([settled]) -- the first stream of the list is locally opened, of that kind,
+   held back, and its index is at or above the limit carried: the sender really is blocked at that limit *)
+Theorem streams_blocked_frame_correct : forall c gm uni l c',
+  freach c gm -> settled c -> fstep c (OBlockedFrame uni) = (FBlocked (Some l), c') ->
+  c' = c /\ l = ms_of c uni /\
+  exists sid t, In sid (blk_of c uni) /\ find_strm sid (c_streams c) = Some t /\ t_blocked t = true /\
+    is_local c sid = true /\ sid_uni sid = uni /\ l <= sid / 4.
+Proof. exact streams_blocked_frame_correct_l. Qed.
+Print Assumptions streams_blocked_frame_correct.
+
+(* [settled] holds from handshake completion on: completing the handshake establishes it in ANY state, and every
+   operation other than the processing of transport parameters (which precedes handshake completion) keeps it *)
+Theorem settled_from_handshake_completion : forall c,
+  settled (snd (fstep c OHandshakeDone)) /\
+  forall op, settled c -> params_op op = false -> settled (snd (fstep c op)).
+Proof. intros c. split; [exact (settled_after_handshake_l c)|intros op; exact (settled_step c op)]. Qed.
+Print Assumptions settled_from_handshake_completion.
+
+(* non-vacuity: max_streams_bidi 1, streams 4 and 8 held back: the frame carries 1; after MAX_STREAMS 2 (stream 4
+   released, 8 still held back) it carries 2; after MAX_STREAMS 3 none is written; never one for the uni kind *)
+Theorem streams_blocked_witness :
+  let c := frun (conn_init true) ops_sb in
+  guards (conn_init true) ops_sb /\ settled c /\
+  fst (fstep c (OBlockedFrame false)) = FBlocked (Some 1) /\ fst (fstep c (OBlockedFrame true)) = FBlocked None /\
+  fst (fstep (snd (fstep c (OMaxStreams false 2))) (OBlockedFrame false)) = FBlocked (Some 2) /\
+  fst (fstep (snd (fstep c (OMaxStreams false 3))) (OBlockedFrame false)) = FBlocked None.
+Proof. exact streams_blocked_witness_l. Qed.
+Print Assumptions streams_blocked_witness.
+
+(* ---- the order in which the stream loop serves the streams (fairness) ---- *)
+
+(* the queue update at the end of the stream loop: a stream s that stays in the queue is never overtaken -- the
+   streams visited before it afterwards are those visited before it earlier minus the ones served (with new data) or
+   discarded; their number shrinks whenever one of them was served; a newly created stream is queued behind s.
+   Together with unblocked_progress: s is passed over at most as many times as there are streams ahead of it. *)
+Theorem queue_rotation_fair : forall q gone served s, In s q -> memz s gone = false ->
+  ahead s (requeue q gone served) = filter (fun x => negb (memz x gone)) (ahead s q) /\
+  (length (ahead s (requeue q gone served)) <= length (ahead s q))%nat /\
+  (forall x, In x (ahead s q) -> memz x gone = true ->
+     (length (ahead s (requeue q gone served)) < length (ahead s q))%nat) /\
+  (forall n, ahead s (q ++ (n :: nil)) = ahead s q).
+Proof. exact queue_rotation_fair_l. Qed.
+Print Assumptions queue_rotation_fair.
